@@ -32,6 +32,14 @@ def showPV {V : Type} (sv : V → String) : Out (V × Bool) → String
   | .ok (v, b) => sv v ++ " " ++ showB b
   | .panic => "panic"
 
+/-- the callback of `rangestop n`: its i-th invocation (counting from 1) answers `i < n`. The keys of
+a map are distinct, so over the model's iteration order this is the pure function "the position of
+the key among the typed keys, plus one, is below n". -/
+def stopAt {K V : Type} (sk : K → Option Int) (keys : List (Option Int)) (n : Nat) (k : K) (_ : V) : Bool :=
+  match keys.idxOf? (sk k) with
+  | some i => decide (i + 1 < n)
+  | none => false
+
 def runMapOp {K V : Type} (kk : Kind K Int) (vk : Kind V Int) (pk : String → K) (pv : String → V)
     (sk : K → Option Int) (sv : V → String) (m : SMap Int Int) : List String → SMap Int Int × String
   | ["load", k] => let r := tLoad MapCfg.gen kk vk m (pk k); (r.1, showPV sv r.2)
@@ -47,11 +55,16 @@ def runMapOp {K V : Type} (kk : Kind K Int) (vk : Kind V Int) (pk : String → K
     let r := tCompareAndDelete kk vk m (pk k) (pv o)
     (r.1, match r.2 with | .ok b => showB b | .panic => "panic")
   | ["range"] =>
-    match tRange MapCfg.gen kk vk m with
+    match tRange MapCfg.gen kk vk m (fun _ _ => true) with
     | .panic => (m, "panic")
     | .ok l =>
       let items := l.foldl (fun acc p => insertSorted (showAny (sk p.1) ++ ":" ++ sv p.2, sk p.1) acc) []
       (m, if items.isEmpty then "empty" else joinWith "," (items.map (·.1)))
+  | ["rangestop", n] =>
+    -- the number of invocations of a callback that returns false at its max(n,1)-th invocation
+    match tRange MapCfg.gen kk vk m (stopAt sk (m.range.map (fun p => sk (kk.ofAny p.1))) (natOr n)) with
+    | .panic => (m, "panic")
+    | .ok l => (m, s!"calls={l.length}")
   | _ => (m, "bad-op")
 
 def cInt : Kind Int Int := concrete Int 0
@@ -164,7 +177,7 @@ structure FutSt where
 
 def fInternal (s : FState) : List FState :=
   (List.range s.waiters.length).flatMap (fun j =>
-    [FLabel.recv j, .read j, .giveUp j].filterMap (fstep WCfg.gen s))
+    [FLabel.recv j, .read j, .giveUp j].filterMap (fstep FCfg.gen s))
 
 /-- every state reachable by internal steps (including the start states) -/
 def fReachInt : Nat → List FState → List FState
@@ -188,20 +201,20 @@ def fObs (s : FState) (fillRes : String) : String :=
 
 /-- apply one harness action; results are (state, fill result) pairs -/
 def fApply (ss : List FState) : List String → List (FState × String)
-  | ["call", j] => (ss.filterMap (fun s => fstep WCfg.gen s (.call (natOr j)))).map (·, "-")
-  | ["cancel", j] => (ss.filterMap (fun s => fstep WCfg.gen s (.cancel (natOr j)))).map (·, "-")
+  | ["call", j] => (ss.filterMap (fun s => fstep FCfg.gen s (.call (natOr j)))).map (·, "-")
+  | ["cancel", j] => (ss.filterMap (fun s => fstep FCfg.gen s (.cancel (natOr j)))).map (·, "-")
   | ["fill", v] =>
     ss.flatMap (fun s =>
       let i := s.fillers.length
       let s := { s with fillers := s.fillers ++ [(intOr v, .idle)] }
-      match fstep WCfg.gen s (.fill1 i) with
+      match fstep FCfg.gen s (.fill1 i) with
       | none => []
       | some s1 =>
         match s1.fillers[i]? with
         | some (_, .panicked) => [(s1, "panic")]
         | _ =>
           (fReachInt (3 * s1.waiters.length + 1) [s1]).filterMap (fun s2 =>
-            match fstep WCfg.gen s2 (.fill2 i) with
+            match fstep FCfg.gen s2 (.fill2 i) with
             | some s3 => some (s3, match s3.fillers[i]? with | some (_, .panicked) => "panic" | _ => "ok")
             | none => none))
   | _ => []
@@ -230,9 +243,9 @@ def lazyStep (s : LState) (toks : List String) : LState × String :=
   | ["call", fv] =>
     let j := s.callers.length
     let s := { s with callers := s.callers ++ [.idle] }
-    let s := (lstep s (.enter j)).getD s
+    let s := (lstep lazyOnceGen s (.enter j)).getD s
     let s := match s.callers[j]? with
-      | some .inF => (lstep s (.finish j (intOr fv))).getD s
+      | some .inF => (lstep lazyOnceGen s (.finish j (intOr fv))).getD s
       | _ => s
     (s, match s.callers[j]? with
       | some (.done v) => s!"{v} runs={s.runs}"
